@@ -87,6 +87,9 @@ def part_a(tier, idx, res, viol):
             rep = {"kind": "A", "path": list(path), "msg": ai}
             if exc is not None:
                 continue  # C15's business
+            for e in logs[0]:  # the catch-all callback: an event whose old and new value are the same object is no change
+                if e[0] == "ValueUpdate" and len(e) > 6 and e[6]:
+                    viol("event-without-change", "msg=%s" % alpha[ai][0], "after %r + %r: %r raised although the value is the same object" % (path, alpha[ai], e[:6]), rep)
             for k, f in enumerate(FILTERS):
                 wm = [e for e in must if accepts(f, e)]
                 wy = [e for e in may if accepts(f, e)]
@@ -185,10 +188,16 @@ def run_b(alpha, views, path, ai, case, res, viol):
                 state["seq"] += 1
                 logs[self.name].append((state["seq"], CC.norm_event(ev)))
 
+            async def acb(self, ev):
+                state["seq"] += 1
+                logs[self.name].append((state["seq"], CC.norm_event(ev)))
+
         def mk_probe(name, f):
             logs[name] = []
             probes[name] = Probe(name)
-            uuids[name] = client.onevent(callback=probes[name].cb, device=f[0], vector=f[1], element=f[2], event_type=etype(rc, f[3]))
+            # every other probe is a coroutine callback (runs as a task; logs are read at quiescence)
+            is_coro = name[0] == "p" and int(name[1:]) % 2 == 1
+            uuids[name] = client.onevent(callback=probes[name].acb if is_coro else probes[name].cb, device=f[0], vector=f[1], element=f[2], event_type=etype(rc, f[3]))
             reg_order.append(name)
 
         def do_op():
@@ -202,7 +211,9 @@ def run_b(alpha, views, path, ai, case, res, viol):
             elif op == "rm-criteria-D1":
                 client.rmonevent(device="D1")
             elif op == "rm-callback-later":
-                client.rmonevent(callback=probes["p%d" % (len(PROBES) - 1)].cb)  # a fresh, equal bound-method object
+                last = len(PROBES) - 1
+                # a fresh, equal bound-method object of the method that was registered
+                client.rmonevent(callback=probes["p%d" % last].acb if last % 2 == 1 else probes["p%d" % last].cb)
             elif op == "rm-type-State":
                 client.rmonevent(event_type=etype(rc, "StateUpdate"))
             elif op == "add-new":
@@ -298,8 +309,15 @@ def run_b(alpha, views, path, ai, case, res, viol):
                 elif when == "inside":
                     wy, wm = wy + wm, []
             elif name in removed:
+                coro_probe = name[0] == "p" and int(name[1:]) % 2 == 1
                 if when == "before":
                     wm, wy = [], []
+                elif style == "plain" and coro_probe and name != "S":
+                    # a coroutine callback runs as a task: events dispatched before the removal may still arrive, later ones not
+                    idx = next((i for i, e in enumerate(wm) if trigger and CC.ev_match(trigger, e)), None)
+                    keep = wm[: idx if idx is not None else 0]
+                    wy = wy + ([wm[idx]] if idx is not None else [])
+                    wm = keep
                 elif style == "plain":
                     # events strictly after the trigger must not arrive; the trigger itself may (if invoked before the op)
                     idx = next((i for i, e in enumerate(wm) if trigger and CC.ev_match(trigger, e)), None)
